@@ -72,3 +72,8 @@ claim("C16", "E2-enumerate", "bounded-exhaustive enumeration of arc images over 
       "Every image over ≤3 files with lengths {0,1,3,4,5,32}, padded/un-padded, tables before/after bodies, all record permutations x all body permutations is extracted and compared entry by entry; for each, images lacking a label, a name, or with size/offset pushed past the data region or wrapping a 32-bit sum must be rejected in both builds.",
       "Trusted: ref_pack.rs arc builder on top of the reference bin-archive writer.",
       "DESIGN.md §4 C16")
+
+claim("C05", "E3-isolate", "deviation-bounded exhaustive enumeration (all single deviations of 31 conforming seeds + header grids) executed in isolated workers under a measuring/capping allocator and watchdog, both arithmetic builds",
+      "Every seed file x each of its entry points x every single planted deviation (each 4-byte word at every offset set to each of 28 boundary values in both byte orders, each byte to 5 values, every truncation, appends) and all 32-byte files over a 12^4 (28^4 thorough) header-word grid for the 9 bin-archive entry points, all ≤2-byte buffers and all 65 536 'pack'+count headers: ≈2M cases per build. Oracle per case: Ok/Err only (panics located, aborts and hangs attributed through subprocess isolation), no single allocation above 1 MiB + 64 x input, over-declaring headers/entries rejected (decided by the reference parser), accepted values re-serialize without panicking.",
+      "Trusted: ref_bin.rs header arithmetic, the capping allocator, the seeds (fixtures + files from the reference writers and from mila's own serializers). Deviation bound 1 is completed at the quick tier; 'all byte strings' is not claimed beyond that neighbourhood.",
+      "DESIGN.md §4 C05")
